@@ -17,7 +17,20 @@ NOTE = ("Theorems are about NeoFS/Model/Balance.lean, a branch-by-branch model o
 TECH = "Lean 4 invariant proofs over a hand-written model + differential correspondence check against the compiled contract"
 CLAIMS = {
     "C01": dict(text="Unbounded proof by induction over histories: for every history inside the property's quantifier, after every prefix, "
-                     "supply = sum of balances, no balance is negative, supply changes only by mint/burn, failed and refused calls change nothing, "
-                     "notifications replay to the balances. Correspondence run + monitors tie the model to the contract and exhibit failing inputs.",
+                     "supply = sum of balances and no balance is negative (sheet_all_histories); supply moves only by a HALTed mint/burn (supply_delta); "
+                     "FAULTed and refused calls change nothing; notifications come in Transfer/TransferX pairs with the call's own payload and replay to "
+                     "all balances, per step and over whole histories (events_replay_histories). Correspondence run + monitors tie the model to the contract "
+                     "and exhibit failing inputs.",
                 note=NOTE, technique=TECH),
+    "C02": dict(text="Proved for every state, environment and argument: a balance decrease implies the Alphabet witness, the account's witness or the account being "
+                     "the calling contract (debit_authorised, lifted to every step of every history and to whole transactions); the public transfer can debit only "
+                     "`from` and only with `from`'s authorisation even under the Alphabet witness; it never FAULTs, answers true iff the exact acceptance condition "
+                     "holds, and a refusal changes nothing. Correspondence run + a monitor correlating every observed decrease with the transaction's signers.",
+                note=NOTE, technique=TECH),
+    "C09": dict(text="Proved: lock creates exactly <amount, until, from>; a tick with epoch < until never debits or alters a lock record; after a HALTed tick no "
+                     "20-byte lock record with until <= epoch remains (all expiring locks released, any number at once); the releasing step moves exactly the remaining "
+                     "balance to the parent, deletes the record and emits one pair with the unlock details; an absent record is never unlocked again; burns reduce "
+                     "what is returned. Correspondence run + a lock life-cycle monitor on the contract.",
+                note=NOTE + " Nested locks (a lock whose parent is itself an expiring lock) release in key order; the exact-refund theorems are stated for lock "
+                            "accounts that are nobody's parent, which is what the Inner Ring creates.", technique=TECH),
 }
